@@ -36,7 +36,8 @@ RULE = ('seeded handler programs: result kind (str, bytes, empty values, list/tu
 COMPONENTS = {
     'real': ['ombott (Ombott.__call__/wsgi/_handle/_cast/_closeiter, Response, HTTPResponse, HTTPError, error_render, router)'],
     'simulated': ['WSGI server (environ, start_response recorder, iteration with early stop, close)', 'wsgi.file_wrapper (fake FileWrapper)',
-                  'user callbacks generated from the program DSL with recording wrappers'],
+                  'user callbacks generated from the program DSL with recording wrappers',
+                  'clock of static_file (module attribute `time` of ombott.static_stream replaced by a constant clock)'],
     'stubbed': [],
 }
 ASSUMPTIONS = [
@@ -438,9 +439,25 @@ def _cur():
     return _TL.ctx
 
 
+class _SimClock:
+    """The clock seam of static_file (its `time` module attribute): a constant, so that the Date header of a 304 -
+    the only use of a clock in the code under test - is the same in every execution of a run."""
+    NOW = 1893456000.0      # 2030-01-01T00:00:00Z
+
+    def time(self):
+        return self.NOW
+
+    def __getattr__(self, name):
+        import time as _time
+        return getattr(_time, name)
+
+
 def setup_app(case):
     """Application with the program's callbacks; the callbacks find their per-request context through _cur()."""
     import ombott
+    import ombott.static_stream as _ss
+    if not isinstance(_ss.time, _SimClock):
+        _ss.time = _SimClock()
     if case.get('use_default'):
         # the process-wide default application, put back into its pristine configuration first
         from ombott.router import RadiRouter
